@@ -32,4 +32,21 @@ int run(std::string const &mode, int argc, char **argv)
 }
 
 
+
+namespace c09
+{
+// the whole command line of a single-label harness binary (a label-type argument, if given, is ignored)
+template <typename L>
+int main_for(int argc, char **argv)
+{
+  if (argc < 4)
+  {
+    std::fprintf(stderr, "usage: record OUT seed histories maxlen [desc] [lt] | replay SCRIPTS OUT [lt stride phase]\n");
+    return 3;
+  }
+  std::string const mode = argv[1];
+  if ((mode == "record" && argc >= 6) || mode == "replay") return run<L>(mode, argc, argv);
+  return 3;
+}
+}
 #endif
